@@ -293,6 +293,32 @@ pub struct NodeView {
     pub notified_leader: Option<(u32, u64)>,
     pub lease_valid: bool,
     pub fatal: bool,
+    /// membership-change entries in the log: (index, description)
+    pub configs: Vec<(u64, String)>,
+}
+
+pub fn config_of(e: &Entry) -> Option<String> {
+    use d_engine_proto::common::entry_payload::Payload;
+    use d_engine_proto::common::membership_change::Change;
+    match e.payload.as_ref().and_then(|p| p.payload.as_ref()) {
+        Some(Payload::Config(c)) => Some(match &c.change {
+            Some(Change::AddNode(a)) => format!("AddNode({})", a.node_id),
+            Some(Change::RemoveNode(r)) => format!("RemoveNode({})", r.node_id),
+            Some(Change::Promote(p)) => format!("Promote({})", p.node_id),
+            Some(Change::BatchPromote(b)) => {
+                let mut ids = b.node_ids.clone();
+                ids.sort_unstable();
+                format!("BatchPromote({ids:?})")
+            }
+            Some(Change::BatchRemove(b)) => {
+                let mut ids = b.node_ids.clone();
+                ids.sort_unstable();
+                format!("BatchRemove({ids:?})")
+            }
+            None => "EmptyChange".into(),
+        }),
+        _ => None,
+    }
 }
 
 pub fn payload_hash(e: &Entry) -> u64 {
@@ -376,6 +402,7 @@ impl SimNode {
                 d_engine_core::now_ms(),
             ),
             fatal: self.fatal,
+            configs: entries.iter().filter_map(|e| config_of(e).map(|c| (e.index, c))).collect(),
         }
     }
 }
@@ -400,6 +427,21 @@ pub struct Election {
     pub fut: TurnFut,
     pub peers: Vec<u32>,
     pub answered: Vec<(u32, Option<VoteResponse>)>,
+}
+
+type JoinFut = Pin<Box<dyn Future<Output = (Box<SimNode>, std::result::Result<(), String>)>>>;
+
+/// A learner blocked in `Raft::join_cluster()` (Node::run_as_learner does this before the loop).
+pub struct Joining {
+    pub node: u32,
+    pub fut: JoinFut,
+    pub leader: u32,
+    pub reply: Option<tokio::sync::oneshot::Sender<d_engine_core::Result<d_engine_proto::server::cluster::JoinResponse>>>,
+    pub rx: Option<
+        MaybeCloneOneshotReceiver<
+            std::result::Result<d_engine_proto::server::cluster::JoinResponse, tonic::Status>,
+        >,
+    >,
 }
 
 pub struct Awaiting {
@@ -455,6 +497,9 @@ pub struct Cluster {
     pub observers: BTreeMap<u32, Arc<Observer>>,
     pub net: Net,
     pub election: Option<Election>,
+    pub joining: Vec<Joining>,
+    /// outcome of every finished join attempt: (node, leader asked, success)
+    pub join_results: Vec<(u32, u32, bool)>,
     pub awaiting: Vec<Awaiting>,
     pub clients: Vec<ClientReq>,
     pub clock_ms: u64,
@@ -466,6 +511,8 @@ pub struct Cluster {
     pub history: Vec<Event>,
     /// nodes whose timer expires right after their next turn
     pub armed_timers: BTreeSet<u32>,
+    /// membership view of a node at the moment it crashed / stopped (C28)
+    pub membership_at_stop: BTreeMap<u32, Vec<(u32, i32, i32)>>,
 }
 
 async fn quiesce() {
@@ -509,6 +556,8 @@ impl Cluster {
             observers: BTreeMap::new(),
             net,
             election: None,
+            joining: vec![],
+            join_results: vec![],
             awaiting: vec![],
             clients: vec![],
             clock_ms: 0,
@@ -518,6 +567,7 @@ impl Cluster {
             last_views: BTreeMap::new(),
             history: vec![],
             armed_timers: BTreeSet::new(),
+            membership_at_stop: BTreeMap::new(),
         };
         d_engine_core::verif_clock::set(Some(0));
         for id in ids {
@@ -651,6 +701,71 @@ impl Cluster {
                 }
             }
         }
+    }
+
+    pub fn refresh_directory(&mut self) {
+        let dir: Vec<(u32, u64)> = self
+            .slots
+            .iter()
+            .filter_map(|(id, s)| match s {
+                Slot::Up(n) if n.role_kind() == RoleKind::Leader && !n.fatal => {
+                    Some((*id, n.raft.current_term()))
+                }
+                _ => None,
+            })
+            .collect();
+        self.net.0.lock().unwrap().leader_directory = dir;
+    }
+
+    /// Resolve join requests whose answer has arrived and let the joiner continue.
+    pub async fn poll_joins(&mut self) -> Res<()> {
+        let mut i = 0;
+        while i < self.joining.len() {
+            let outcome = match self.joining[i].rx.as_mut() {
+                // the leader was not reachable: the RPC fails
+                None => Some(Err(d_engine_core::NetworkError::TaskBackoffFailed("leader unreachable".into()).into())),
+                Some(rx) => match rx.now_or_never() {
+                    None => None,
+                    Some(Ok(Ok(resp))) => Some(Ok(resp)),
+                    Some(Ok(Err(status))) => Some(Err(d_engine_core::NetworkError::TonicStatusError(Box::new(status)).into())),
+                    Some(Err(_)) => Some(Err(d_engine_core::NetworkError::TaskBackoffFailed("join response channel closed".into()).into())),
+                },
+            };
+            let Some(result) = outcome else {
+                i += 1;
+                continue;
+            };
+            let mut j = self.joining.remove(i);
+            let success = matches!(&result, Ok(r) if r.success);
+            self.oracle.on_join_answer(j.node, j.leader, success);
+            if let Some(reply) = j.reply.take() {
+                let _ = reply.send(result);
+            }
+            let mut spins = 0;
+            let (node, r) = loop {
+                match futures::poll!(j.fut.as_mut()) {
+                    std::task::Poll::Ready(v) => break v,
+                    std::task::Poll::Pending => {
+                        spins += 1;
+                        if spins > 200 {
+                            return Err("joiner does not finish after the join answer".into());
+                        }
+                        quiesce().await;
+                    }
+                }
+            };
+            self.join_results.push((j.node, j.leader, r.is_ok()));
+            if r.is_ok() {
+                self.slots.insert(j.node, Slot::Up(node));
+                self.after_turn(j.node).await;
+                self.settle(j.node).await?;
+            } else {
+                // Node::run returns the error: the process exits
+                drop(node);
+                self.slots.insert(j.node, Slot::Absent);
+            }
+        }
+        Ok(())
     }
 
     pub async fn settle_node(&mut self, id: u32) -> Res<()> {
@@ -842,6 +957,18 @@ impl Cluster {
                         self.settle(*peer).await?;
                         if let Some(Ok(Ok(r))) = (&mut rx).now_or_never() {
                             self.oracle.on_vote_response(*peer, cand, req.term, &r);
+                            // C27: a node that is a learner (its own role) never grants a vote
+                            let is_learner = self
+                                .node(*peer)
+                                .map(|n| n.role_kind() == RoleKind::Learner)
+                                .unwrap_or(false);
+                            if is_learner && r.vote_granted {
+                                self.oracle.violate(
+                                    "C27",
+                                    format!("lv{peer}t{}", req.term),
+                                    format!("learner {peer} granted its vote to {cand} in term {}", req.term),
+                                );
+                            }
                             if *ans == VoteAns::Deliver {
                                 response = Some(r);
                             }
@@ -868,6 +995,13 @@ impl Cluster {
                     let granted =
                         el.answered.iter().filter(|(_, r)| r.map(|x| x.vote_granted).unwrap_or(false)).count();
                     self.oracle.on_election_result(cand, req.term, granted, el.peers.len());
+                    let granters: Vec<u32> = el
+                        .answered
+                        .iter()
+                        .filter(|(_, r)| r.map(|x| x.vote_granted).unwrap_or(false))
+                        .map(|(p, _)| *p)
+                        .collect();
+                    self.oracle.on_election_quorum(cand, req.term, granters, el.peers.clone());
                     let _ = pv.reply.send(VoteResult {
                         peer_ids: el.peers.iter().copied().collect(),
                         responses,
@@ -998,6 +1132,10 @@ impl Cluster {
                 self.settle(*id).await?;
             }
             Event::Crash(id, mode) => {
+                if let Some(n) = self.node(*id) {
+                    let m = n.view().await.members;
+                    self.membership_at_stop.insert(*id, m);
+                }
                 let Some(node) = self.take(*id) else { return Err("node not up".into()) };
                 let image = node.crash(*mode);
                 self.slots.insert(*id, Slot::Down(image));
@@ -1011,6 +1149,10 @@ impl Cluster {
                 }
             }
             Event::Stop(id) => {
+                if let Some(n) = self.node(*id) {
+                    let m = n.view().await.members;
+                    self.membership_at_stop.insert(*id, m);
+                }
                 let Some(mut node) = self.take(*id) else { return Err("node not up".into()) };
                 // EmbeddedEngine::stop -> shutdown arm of Raft::run -> Node::run tail -> drops
                 node.sm.close_storage();
@@ -1049,6 +1191,29 @@ impl Cluster {
                 };
                 self.start_node(*id, image).await?;
                 self.settle(*id).await?;
+                // ---- C28: the restarted node's view of the cluster equals what it had applied
+                //      before it went down (checked before anything new is delivered to it)
+                if let (Some(before), Some(n)) = (self.membership_at_stop.get(id).cloned(), self.node(*id)) {
+                    let now = n.view().await.members;
+                    if now != before {
+                        let name = |m: &Vec<(u32, i32, i32)>| -> String {
+                            m.iter()
+                                .map(|(i, role, st)| format!("{i}:{}{}", if *role == NodeRole::Learner as i32 { "L" } else { "V" },
+                                    if *st == NodeStatus::Active as i32 { "" } else { "(inactive)" }))
+                                .collect::<Vec<_>>()
+                                .join(",")
+                        };
+                        self.oracle.violate(
+                            "C28",
+                            format!("n{id}"),
+                            format!(
+                                "node {id} restarted with membership [{}] but had applied [{}] before it went down",
+                                name(&now),
+                                name(&before)
+                            ),
+                        );
+                    }
+                }
             }
             Event::ApplyRelease(id) => {
                 let n = self.node(*id).ok_or("node not up")?;
@@ -1074,8 +1239,64 @@ impl Cluster {
                 }
                 self.settle(*id).await?;
             }
-            Event::Join(_) | Event::JoinDeliver(_) | Event::PushDeliver(_, _) | Event::PushFail(_, _) => {
-                return Err("membership events are handled by cluster_ext".into());
+            Event::Join(id) => {
+                if !matches!(self.slots.get(id), Some(Slot::Absent)) {
+                    return Err(format!("node {id} cannot join (not absent)"));
+                }
+                self.refresh_directory();
+                self.start_node(*id, NodeImage::default()).await?;
+                let Some(node) = self.take(*id) else { return Err("joiner vanished".into()) };
+                let mut fut: JoinFut = Box::pin(async move {
+                    let r = node.raft.join_cluster().await.map_err(|e| format!("{e:?}"));
+                    (node, r)
+                });
+                let mut spins = 0;
+                let ready = loop {
+                    match futures::poll!(fut.as_mut()) {
+                        std::task::Poll::Ready(v) => break Some(v),
+                        std::task::Poll::Pending => {
+                            if self.net.0.lock().unwrap().pending_join.iter().any(|p| p.from == *id) {
+                                break None;
+                            }
+                            spins += 1;
+                            if spins > 200 {
+                                return Err(format!("joiner {id} blocked on an unknown await"));
+                            }
+                            quiesce().await;
+                        }
+                    }
+                };
+                match ready {
+                    Some((node, r)) => {
+                        // no leader found / immediate failure: Node::run would exit with the error
+                        drop(node);
+                        self.slots.insert(*id, Slot::Absent);
+                        self.join_results.push((*id, 0, r.is_ok()));
+                    }
+                    None => {
+                        let pj = {
+                            let mut g = self.net.0.lock().unwrap();
+                            let pos = g.pending_join.iter().position(|p| p.from == *id).unwrap();
+                            g.pending_join.remove(pos)
+                        };
+                        let mut rx = None;
+                        if let Some(l) = self.node(pj.leader) {
+                            let (tx, r) = MaybeCloneOneshot::new();
+                            if l.event_tx.try_send(InboundEvent::JoinCluster(pj.req.clone(), tx)).is_ok() {
+                                rx = Some(r);
+                            }
+                        }
+                        let delivered = rx.is_some();
+                        self.joining.push(Joining { node: *id, fut, leader: pj.leader, reply: Some(pj.reply), rx });
+                        if delivered {
+                            self.settle(pj.leader).await?;
+                        }
+                    }
+                }
+                self.poll_joins().await?;
+            }
+            Event::JoinDeliver(_) | Event::PushDeliver(_, _) | Event::PushFail(_, _) => {
+                return Err("not implemented".into());
             }
         }
         // every event may have produced messages anywhere
@@ -1083,6 +1304,10 @@ impl Cluster {
         self.net.pump();
         self.collect_responses();
         self.collect_clients();
+        if !self.joining.is_empty() {
+            self.poll_joins().await?;
+        }
+        self.refresh_directory();
         Ok(())
     }
 
@@ -1230,6 +1455,8 @@ impl Cluster {
         feed(&|h| {
             armed.hash(h);
             aw.iter().map(|l| (l.from, l.to)).collect::<Vec<_>>().hash(h);
+            self.joining.iter().map(|j| (j.node, j.leader, j.rx.is_some())).collect::<Vec<_>>().hash(h);
+            self.join_results.hash(h);
             cl.hash(h);
             oracle_fp.hash(h);
             clock.hash(h);
